@@ -6,7 +6,9 @@ import os
 VERIF = os.path.dirname(os.path.dirname(os.path.abspath(__file__)))
 
 TB = ("Trusted: Coq 8.16.1 kernel (vm_compute used, native_compute not), translator harness/py2coq.py+facts.py, "
-      "the Python correspondence harness. No axioms (Print Assumptions checked on every run). ")
+      "the Python correspondence harness. No axioms (Print Assumptions checked on every run). Every statement of the "
+      "source files the theorems speak about is pinned (Proofs/SrcPin*.v against the regenerated src_* skeletons): any "
+      "change of that code breaks an obligation and sends the check into the search for a failing input. ")
 
 CHECKS = {
     "C01": dict(
@@ -30,7 +32,9 @@ CHECKS = {
         text="Coq theorems for all signatures and calls: the translated kwargs_from_call refines Bind.resolve "
              "(C05_code_is_model), and Bind.resolve agrees with Python's binding on every named non-variadic parameter, "
              "_ARGS and _KWARGS outside the two recorded finding classes (C05_agree_partial); two _refuted theorems "
-             "exhibit the findings. Tie: translation of the leaf function on every run + correspondence (reference binder "
+             "exhibit the findings; for whole checked calls of the checker model: the library's own TypeError always has a "
+             "reason readable off the declarations and the call - a parameter the call binds stays available to every "
+             "contract, whatever was evaluated before (C05_type_error_has_a_reason, Proofs/CheckerTypeError.v). Tie: translation of the leaf function on every run + correspondence (reference binder "
              "vs CPython, model vs code, spec on the implementation's observation).",
         note=TB + "Bind.pybind (CPython's binding) is a hand-written reference validated against CPython on every case. "
              "_partial: excludes kf_C05_surplus / kf_C05_posonly (known findings).",
@@ -40,7 +44,8 @@ CHECKS = {
              "target, fuel, cancellation plan: the marker in the context variable implements exactly the declarative "
              "stack rule of Spec/RunRef.v - bare iff an open frame of the same function/instance is evaluating contracts "
              "(C10_skip_only_own, a refinement proof); if the bodies are ranked, evaluation never exhausts a depth budget "
-             "of (#keys+1)*(R+1) however contracts re-enter (C10_terminates, lexicographic measure). Tie: pinned wrapper "
+             "of (#keys+1)*(R+1) however contracts re-enter (C10_terminates, lexicographic measure); targets include the "
+             "creation of an instance through a wrapped __new__ (no suspension; terminates if it outranks what it calls). Tie: pinned wrapper "
              "skeletons + correspondence on generated call graphs with spec_C10 (the reference) on the implementation.",
         note=TB + "Modelled: contextvars get/set, try/finally, coroutine send/throw. The D1/D2 repairs are in /repo "
              "(fix: commits); their witnesses are corpus cases.",
@@ -90,11 +95,13 @@ CHECKS = {
              "keeps the inherited precondition when none is declared (C04_pre_kept), accepts all without any "
              "(C04_accept_all), AND over postconditions (C04_post_and), rejects weakening without base preconditions "
              "(C04_weaken_rejected); the generated collapse_* functions refine the model's merge (Proofs/ElabRefine.v); "
-             "C04_accept_all_refuted exhibits the known finding. Tie: definition histories with single and multiple "
-             "inheritance on DBC, every member kind; the lists found through find_checker are compared with the "
-             "effective contracts computed from the declarations along the MRO (spec_C04).",
+             "C04_accept_all_refuted exhibits the known finding; the hierarchy the oracles read off an observed history is "
+             "the model's on the model's own history (C04_oracle_hierarchy_is_the_models, Proofs/ElabSkeleton.v). Tie: "
+             "definition histories with single and multiple inheritance on DBC, every member kind; the lists found through "
+             "find_checker are compared with the effective contracts computed from the declarations along the MRO (spec_C04).",
         note=TB + "The whole-class-table induction (any DAG) is not proved; general DAGs are checked by correspondence. "
-             "kf_C04_accept_all (D6) is a known finding.",
+             "Known findings: kf_C04_accept_all (D6), kf_C04_accessor_gap (D23), kf_C04_copy_shadows (D34), "
+             "kf_C04_hidden_definer (D36).",
         design="DESIGN.md section 6 C04"),
     "C06": dict(
         text="Theorems (any data model in which only callables are called, conditions without comprehensions): if "
@@ -121,7 +128,7 @@ CHECKS = {
              "the re-evaluator returns: C07_no_extra_evaluation); message = location, description, text, "
              "lines (C07_message_shape); D12b exhibited (C07_speculative_refuted). Tie: correspondence with the guard shapes "
              "first, exception class at the caller, condition text parsed back, evaluated nodes against CPython's; layouts "
-             "of the decorator by enumeration (7 layouts x 3 nestings x description).",
+             "of the decorator by enumeration (9 layouts x 3 nestings x description).",
         note=TB + "Partial: the layout clause is an enumeration of layout templates (source recovery is inspect/asttokens "
              "behaviour, not modelled). Recorded finding D12b (speculative evaluation inside comprehensions).",
         design="DESIGN.md section 6 C07"),
